@@ -2,7 +2,8 @@
 
 (a) seeded histories of the full API (replace, add-on-present, incr, bulk
 removal, eviction, queues, blocks that commit or abort, values that cannot be
-stored) with `check()` interleaved: results + whole-state digest against
+stored) with `check()` interleaved, plus every call on a row whose file-backed
+value has expired (before / on / after the expiry instant): results + whole-state digest against
 DC.Model.Cache, whose every method provably keeps `Good` (C08_Seq) and
 `TableInv` for all histories (run_inv).
 (b) single injected failures: the n-th database statement raises
@@ -56,6 +57,35 @@ def history(rng, length):
     h['ops'] = out
     h['state_every'] = 3
     return h
+
+
+def stale_file_histories():
+    """every call that can meet a row whose FILE-BACKED value has expired (the row is still there, its
+    file too): afterwards rows, counters and files must agree - systematically, not by luck of the
+    random histories.  One history per (call, cull_limit, policy, gap): store a file-backed value with
+    a ttl, let it expire, make the call, check()."""
+    big, big2 = b'F' * 40, b'G' * 33
+    calls = [
+        {'m': 'incr', 'k': 'k', 'delta': 1, 'default': 0}, {'m': 'incr', 'k': 'k', 'delta': 1, 'default': None},
+        {'m': 'incr', 'k': 'k', 'delta': 2, 'default': 5, 'via': 'decr'},
+        {'m': 'add', 'k': 'k', 'v': big2, 'ttl': None, 'tag': None}, {'m': 'add', 'k': 'k', 'v': 7, 'ttl': 3, 'tag': 't'},
+        {'m': 'set', 'k': 'k', 'v': big2, 'ttl': None, 'tag': None}, {'m': 'set', 'k': 'k', 'v': 'small', 'ttl': None, 'tag': None},
+        {'m': 'touch', 'k': 'k', 'ttl': 50}, {'m': 'pop', 'k': 'k'}, {'m': 'get', 'k': 'k'}, {'m': 'delete', 'k': 'k'},
+        {'m': 'delitem', 'k': 'k'}, {'m': 'contains', 'k': 'k'}, {'m': 'expire'}, {'m': 'cull'}, {'m': 'evict', 'tag': 'old'},
+        {'m': 'clear'}, {'m': 'peekitem', 'last': 1}, {'m': 'set', 'k': 'other', 'v': big2, 'ttl': None, 'tag': None},
+    ]
+    hists = []
+    for call in calls:
+        for cull in (0, 10):
+            for policy in ('lrs', 'none'):
+                for gap in (5, 6, 7):        # before, on and after the expiry instant
+                    ops = [{'m': 'set', 'now': 1000, 'k': 'k', 'v': big, 'ttl': 6, 'tag': 'old'},
+                           dict(call, now=1000 + gap), {'m': 'check', 'now': 1000 + gap},
+                           {'m': 'get', 'now': 1000 + gap, 'k': 'k'}, {'m': 'len', 'now': 1000 + gap}]
+                    hists.append({'cfg': {'mfs': 8, 'policy': policy, 'cull': cull, 'stats': 0, 'proto': 5, 'disk': 'pickle',
+                                          'limN': 2 ** 30, 'limD': 1, 'tagidx': 0},
+                                  'ops': ops, 'state_every': 1})
+    return hists
 
 
 def acceptor(hist, io):
@@ -175,7 +205,7 @@ def run(tier, seed, rng, known, replay):
     if replay:
         return base.replay_file(replay, 'C08', ('result', 'state'), acceptor)
     n = 160 if tier == 'quick' else 2400
-    hists = [history(rng, rng.choice([20, 50, 90])) for _ in range(n)]
+    hists = stale_file_histories() + [history(rng, rng.choice([20, 50, 90])) for _ in range(n)]
     r = base.check_histories('C08', hists, ('result', 'state'), acceptor=acceptor, known=known)
     dist, distinct = base.op_distribution(hists, r['impl_out'])
     violations = list(r['violations'])
